@@ -360,6 +360,14 @@ func RunOnePrefix(t *testing.T, wl *Workload, seed uint64, replay []int32, prefi
 	}
 	if res.Budget {
 		w.Inconclusive("budget")
+	} else {
+		for _, ti := range res.Tasks {
+			if ti.ID == "0" && ti.State != "exited" && ti.Panic == "" {
+				// the workload's own root task never finished (e.g. it blocked in
+				// an eager library call): nothing was judged
+				w.Inconclusive("root-blocked")
+			}
+		}
 	}
 	// a panic in a harness task is a harness error unless the workload claims it
 	if w.After != nil {
